@@ -181,7 +181,7 @@ pub fn programs(tier: Tier) -> (Vec<Rc<Prog>>, usize) {
     let mut rejected = rej.len();
     let (k, a) = match tier {
         Tier::Quick => (2, 12),
-        Tier::Thorough => (3, 16),
+        Tier::Thorough => (2, 16),
     };
     let (seg, rej2) = pool::seg_programs(k, a);
     rejected += rej2.len();
@@ -193,7 +193,7 @@ pub fn run(tier: Tier) -> i32 {
     let started = std::time::Instant::now();
     let (h, d, secs) = match tier {
         Tier::Quick => (3, 2, 50),
-        Tier::Thorough => (4, 3, 1500),
+        Tier::Thorough => (4, 3, 2400),
     };
     // programs are compiled per thread (Rc), so ship sources
     let (progs, rejected) = programs(tier);
